@@ -1,10 +1,12 @@
 package main
 
 func init() {
-	register("C05", "PROD-TABLE etc.", rulePRODTABLE)
+	register("C05", "PROD-TABLE etc.", rulePRECTABLE, rulePRODTABLE, ruleBRACKETS)
 	register("C06", "", rulePRODGUARD, rulePRODEXTRA, ruleACCEPT, ruleVALIDATEDOM)
 	register("C07", "", rulePUSHSTATE)
 	register("C09", "", rulePARENID)
 	register("C11", "", ruleDFCOVER, ruleDFACCEPT)
-	register("C01", "", ruleREDBAL, rulePARPUSH)
+	register("C01", "", ruleREDBAL, rulePARPUSH, rulePANIC_C01)
+	register("C13", "", rulePANIC_C13)
+	register("C10", "", ruleRETPAIR, ruleCTORNONNIL, ruleVALTOTAL, ruleVALSHAPE, ruleVALIDATEDOM)
 }
